@@ -102,28 +102,28 @@ Definition inv (sch : schema) (st : state) (log : wlog) : Prop :=
 Lemma with_id_sid sch sch' doc id : s_id sch = s_id sch' -> with_id sch doc id = with_id sch' doc id.
 Proof. unfold with_id. intros ->. reflexivity. Qed.
 
-Lemma upsert1_effect st ins id p st' :
-  upsert1 st ins id p = Ok st' ->
+Lemma upsert1_effect st ins id p pd st' pd' :
+  upsert1 st ins id p pd = Ok (st', pd') ->
   st_sch st' = st_sch st /\ exists r, st_docs st' = put_version (st_docs st) id (VPut p r).
 Proof.
   unfold upsert1. destruct (gen_row (s_fields (st_sch st)) p) as [r| |]; simpl; try discriminate.
   destruct (ins && _); try discriminate.
-  destruct (uniq_checks st ins id r); try discriminate.
+  destruct (uniq_checks st ins id r pd); try discriminate.
   intros H; inversion H; subst; simpl. split; auto. eauto.
 Qed.
 
-Lemma insert_all_effect l : forall st st',
-  insert_all st l = Ok st' ->
+Lemma insert_all_effect l : forall st pd st',
+  insert_all st l pd = Ok st' ->
   st_sch st' = st_sch st /\
   forall id, map payload_of (vers (st_docs st') id) =
              map payload_of (vers (st_docs st) id) ++
              log_vers (map (fun p => (fst p, Some (with_id (st_sch st) (snd p) (fst p)))) l) id.
 Proof.
-  induction l as [|[i d] l IH]; simpl; intros st st' H.
+  induction l as [|[i d] l IH]; simpl; intros st pd st' H.
   - inversion H; subst. split; auto. intros id. unfold log_vers; simpl. rewrite app_nil_r. reflexivity.
   - destruct (has_key d doc_blob); try discriminate.
     destruct (has_key d (s_id (st_sch st))); try discriminate.
-    destruct (upsert1 st true i (with_id (st_sch st) d i)) as [st1| |] eqn:U; simpl in H; try discriminate.
+    destruct (upsert1 st true i (with_id (st_sch st) d i) pd) as [[st1 pd1]| |] eqn:U; simpl in H; try discriminate.
     apply upsert1_effect in U as [S1 [r D1]].
     apply IH in H as [S2 V2]. split; [congruence|].
     intros id. rewrite V2, D1, vers_put, S1, log_vers_cons.
@@ -132,16 +132,16 @@ Proof.
     + reflexivity.
 Qed.
 
-Lemma replace_all_effect ids : forall st doc st',
-  replace_all st ids doc = Ok st' ->
+Lemma replace_all_effect ids : forall st doc pd st',
+  replace_all st ids doc pd = Ok st' ->
   st_sch st' = st_sch st /\
   forall id, map payload_of (vers (st_docs st') id) =
              map payload_of (vers (st_docs st) id) ++
              log_vers (map (fun i => (i, Some (with_id (st_sch st) doc i))) ids) id.
 Proof.
-  induction ids as [|i ids IH]; simpl; intros st doc st' H.
+  induction ids as [|i ids IH]; simpl; intros st doc pd st' H.
   - inversion H; subst. split; auto. intros id. unfold log_vers; simpl. rewrite app_nil_r. reflexivity.
-  - destruct (upsert1 st false i (with_id (st_sch st) doc i)) as [st1| |] eqn:U; simpl in H; try discriminate.
+  - destruct (upsert1 st false i (with_id (st_sch st) doc i) pd) as [[st1 pd1]| |] eqn:U; simpl in H; try discriminate.
     apply upsert1_effect in U as [S1 [r D1]].
     apply IH in H as [S2 V2]. split; [congruence|].
     intros id. rewrite V2, D1, vers_put, S1, log_vers_cons.
@@ -193,7 +193,7 @@ Proof.
     destruct l as [|p l'].
     { inversion Hstep; subst; simpl. rewrite app_nil_r. split; auto. }
     cbv iota in Hstep. remember (p :: l') as l eqn:El. clear El.
-    destruct (insert_all st l) as [st1| |] eqn:IA;
+    destruct (insert_all st l []) as [st1| |] eqn:IA;
       inversion Hstep; subst; simpl; try (rewrite app_nil_r; split; auto).
     apply insert_all_effect in IA as [S1 V1].
     assert (I1 : inv sch st' (log ++ map (fun p0 => (fst p0, Some (with_id sch (snd p0) (fst p0)))) l)).
@@ -204,7 +204,7 @@ Proof.
   - (* replace *)
     destruct (engine_search st (inject_id (st_sch st) doc q) 0) as [rows| |];
       try (inversion Hstep; subst; simpl; rewrite app_nil_r; split; auto).
-    destruct (replace_all st (map l_id rows) doc) as [st1| |] eqn:RA;
+    destruct (replace_all st (map l_id rows) doc []) as [st1| |] eqn:RA;
       inversion Hstep; subst; try (simpl; rewrite app_nil_r; split; auto).
     apply replace_all_effect in RA as [S1 V1].
     rewrite writes_replace.
@@ -321,9 +321,9 @@ Proof.
   destruct o as [l|q doc|q|name t|name|cols uniq|cols|q off|q off|id|id desc off lim];
     [unfold step|simpl..].
   - destruct l as [|p l']; [simpl; auto|]. cbv iota. generalize (p :: l'). intros L.
-    destruct (insert_all st L); simpl; auto. discriminate.
+    destruct (insert_all st L []); simpl; auto. discriminate.
   - destruct (engine_search st (inject_id (st_sch st) doc q) 0); simpl; auto.
-    destruct (replace_all st (map l_id a) doc); simpl; auto. discriminate.
+    destruct (replace_all st (map l_id a) doc []); simpl; auto. discriminate.
   - destruct (engine_search st q 0); simpl; auto. discriminate.
   - destruct (col_exists (st_sch st) name || bytes_eqb name doc_blob); simpl; auto. discriminate.
   - destruct (find_field (st_sch st) name); simpl; auto.
